@@ -2,17 +2,19 @@
 use parol::build::Builder;
 fn main() {
     // the crate directory is generated afresh on every run: a missing output must re-run this script
-    for f in ["ll_parser.rs", "ll_grammar_trait.rs", "lr_parser.rs", "lr_grammar_trait.rs"] { println!("cargo:rerun-if-changed=src/gen/{f}"); }
+    for p in ["ll", "lr", "ll_t", "lr_t"] { for f in ["parser.rs", "grammar_trait.rs"] { println!("cargo:rerun-if-changed=src/gen/{p}_{f}"); } }
     println!("cargo:rerun-if-changed=build.rs");
-    for (g, p) in [("g_ll.par", "ll"), ("g_lr.par", "lr")] {
+    // four parsers: LL(k) and LALR(1), each with the full parse tree and with `trim_parse_tree`
+    for (g, p, ty) in [("g_ll.par", "ll", "LlGrammar"), ("g_lr.par", "lr", "LrGrammar"), ("g_ll.par", "ll_t", "LlTGrammar"), ("g_lr.par", "lr_t", "LrTGrammar")] {
         std::fs::create_dir_all("src/gen").unwrap();
         let mut b = Builder::with_explicit_output_dir("src/gen");
         b.grammar_file(g)
             .parser_output_file(format!("{p}_parser.rs"))
             .actions_output_file(format!("{p}_grammar_trait.rs"))
-            .user_type_name(if p == "ll" { "LlGrammar" } else { "LrGrammar" })
+            .user_type_name(ty)
             .user_trait_module_name(&format!("{p}_grammar"));
         b.max_lookahead(3).unwrap();
+        if p.ends_with("_t") { b.trim_parse_tree(); }
         if let Err(e) = b.generate_parser() {
             panic!("parol failed on {g}: {e:?}");
         }
